@@ -181,6 +181,21 @@ def check_qlm(run, pkg, weighted):
                f"{len(divs)} divisions" + (f": {key_of(divs[0])[:80]}" if divs else ""),
                witness=None if ok else ("q_lm is the bond sum, not the bond average: q_l grows with cn" if not divs else "divided more than once / by another quantity: q_l is not in [0, 1]"), loc=loc, sound=True)
         q_final = divs[0].data["new"] if ok else Z
+        if ok is not True and not divs:
+            # the mean is formed out of place where the frame is appended (`list.append(Z / cn)`): the local vector of the frame is
+            # that quotient; the coarse-graining step must then start from it too - reading the accumulator Z itself means raw sums
+            app = [e for e in it.events if e.kind == "call" and e.data["call"][1] == ".append" and len(e.data["call"][2]) == 2 and Lf.id in e.loops]
+            quot = [e.data["call"][2][1] for e in app if e.data["call"][2][1][0] == "bin" and e.data["call"][2][1][1] == "/" and e.data["call"][2][1][2] == Z
+                    and eqv(col_bcast(e.data["call"][2][1][3]), cn_col) is True]
+            if len(quot) == 1:
+                copies = [e.data["value"] for e in it.events if e.kind == "assign" and e.data["value"][0] == "call" and e.data["value"][1] in ("numpy.copy", ".copy", "numpy.array")
+                          and e.data["value"][2] and Lf.id in e.loops]
+                reads_raw = any(c[2][0] == Z for c in copies)
+                reads_mean = any(c[2][0] == quot[0] for c in copies)
+                if reads_raw and not reads_mean:
+                    run.ob("R-ALG", fq, "plain:coarse:operand", False, "coarse graining averages the NORMALISED local vectors q_lm(i) (the values appended for the frame)",
+                           f"the frame appends {show(quot[0])[:60]} but the coarse-graining step copies and sums {show(Z)[:40]}, the raw bond sums",
+                           witness="cn = 12 for every particle: Q_lm comes out 12 times too large (Q_l > 1)", loc=loc, sound=True)
     else:
         by_cn = [d for d in divs if eqv(col_bcast(d.data["value"]), cn_col) is True]
         run.ob("R-ALG", fq, "weighted:no-second-division", True if not divs else (False if by_cn else None), "weighted sums are not divided by cn again (weights already sum to 1)", f"{len(divs)} divisions",
